@@ -37,6 +37,8 @@ PROP = [
  ("morsel path does not implement were computed as COUNT", "C04", "COUNT_IF (and every other aggregate the morsel accumulators lack) answered COUNT(x) over Parquet and its real value over memory"),
  ("merging partial aggregate states dropped every state", "C07", "COUNT_IF / BOOL_AND / BOOL_OR / ANY_VALUE / bitwise / LISTAGG / ... partial states were dropped on merge: COUNT_IF returned 24 in a multi-batch multi-worker world and 52 from one batch"),
  ("GROUP BY a BOOLEAN column failed on the hash-aggregate path", "C04", "GROUP BY a Boolean key answered over Parquet (morsel path) and failed over memory and on the gather path with 'Group by type not supported: Boolean'"),
+ ("over no non-NULL input answered TRUE / FALSE on the one-aggregate path", "C08", "`SELECT BOOL_OR(b) FROM t WHERE <nothing matches>` answered false with an unlimited budget and NULL under a memory limit (also over Parquet and with several workers: C04, C07)"),
+ ("NULL string gathered from a small join build side became the empty string", "C04", "GROUP BY a string column of a small join build side put the NULL rows into the '' group over Parquet and kept a NULL group from memory (dictionary gather kept NULLs as valid keys to null values)"),
  ("late cross-process sidecar builder deleted", "C20", "a second process finishing its sidecar build removed the directory another process had just published while readers were opening its files: queries failed with ENOENT"),
 ]
 kf_path = os.path.join(HERE, "known_findings.json")
